@@ -109,6 +109,10 @@ func account(st caseStats) {
 // e2eCase runs one URL in one mode on a worker.
 func e2eCase(w *worker, c urlCase, r *rand.Rand, keepalive bool) {
 	c.URL = c.build(w.ts.Port)
+	if c.Mode != "record" && !c.BackFirst && run.Replay == "" {
+		// decided by the case itself, so that a replay sees the same stream
+		c.BackFirst = (len(c.Path)+len(c.Query)+c.Medias+len(c.Order))%4 == 0
+	}
 	evals.Add(1)
 	st := report(func(f finding) any {
 		wc := c
